@@ -29,6 +29,7 @@ def levels(tier):
              "links_batch": 1, "batch_targets": 1},
             {"name": "recrawl3", "shapes": [[1, 2, 2]], "L": 1, "n": 1, "prelude": [["page", 0, True]], "alphabet": ["batch"],
              "batch_sources": 3, "batch_targets": 1, "yield_frequencies": [50, 1]},
+            {"name": "clear-n3", "shapes": [[1, 2, 2]], "L": 1, "n": 3, "alphabet": ["clear", "pages", "links"], "links_batch": 1, "pages_batch": 1},
             {"name": "str-lrus", "concrete": STR_LRUS, "as_str": True, "n": 2, "alphabet": ["page", "pages", "links", "batch", "we"],
              "links_batch": 1, "batch_targets": 1},
         ]
